@@ -1752,8 +1752,20 @@ def procs_src():
     return text, {"functions": len(st) if isinstance(st, dict) else None}
 
 
+def crop_src():
+    """gen/CropSrc.v: harvest_index and canopy_cover (long, loop-free crop processes) translated like the kernels; proofs/CropSrcOK.v"""
+    import gen_kernels
+    try:
+        text, st = gen_kernels.generate_crop(None)
+    except (gen_kernels.TranslatorError, SyntaxError, RecursionError) as e:
+        msg = str(e).replace("*)", "* )")
+        return ("(* TRANSLATOR-ERROR (harness/gen_kernels.py refused the current source): %s *)\n"
+                "Definition crop_src_translator_refused_the_source : False := I.\n" % msg), {"translator_error": msg[:300]}
+    return text, {"functions": len(st) if isinstance(st, dict) else None}
+
+
 GENERATORS = {"CropCatalogue.v": crop_catalogue, "StateFields.v": state_fields, "StoreSites.v": store_sites, "OrderSources.v": order_sources,
-              "KernelsSrc.v": kernels_src, "ProcsSrc.v": procs_src}
+              "KernelsSrc.v": kernels_src, "ProcsSrc.v": procs_src, "CropSrc.v": crop_src}
 
 
 def main(argv=None):
